@@ -21,14 +21,15 @@ TRUSTED = [
     "the theorems about the bisection are over the reals, where the loop only stops on an exact root: they are stated "
     "for every fuel n (bracket width ceiling/2^n); that the double loop runs >= 52 halvings before its own test stops "
     "it is observed in the correspondence run (iteration counts in the evidence), not proved",
-    "'k spends are accepted' is expressed in the theorems as `total(spent ++ k*[(x,0)]).eps <= ceiling` (the test "
-    "check() performs, C04/C05 give the prefix monotonicity); the chain of k check() calls itself is exercised on the "
-    "implementation",
+    "the theorems about acceptance (`spendK_accepts`, `remaining_spendable_accepts`, `remaining_maximal_refuses`) are "
+    "about the model's check/spend over the reals, where there is no unlimited shortcut (`float('inf')` does not exist); "
+    "the chain of k spend() calls in doubles is exercised on the implementation",
 ]
 UNPROVED = [
     "the translation of half a final bracket (ceiling/2^(n+1)) into the property's 1e-9 relative slack uses the number "
     "of iterations the double loop performs; validated on every run, not proved",
-    "remaining_antitone (appending a spend does not increase remaining) is validated on the implementation only",
+    "remaining_antitone is proved for the epsilon component (same fuel on both sides); for the delta component it is "
+    "validated on the implementation only",
     "floating-point behaviour of spend() next to the ceiling (1e-9 / 1e-15 slacks of the property) is validated, not proved",
 ]
 RULE = ("accountant states generated from the seed: ceilings (inf, 1, 0.5, 3, log-uniform 1e-3..100, 0) x delta ceilings "
